@@ -29,7 +29,45 @@ def families(tier, seed):
         # coarse sampling (sampling step larger than the delays): the history must still contain every accepted step
         out.append(dict(tag=f"{tag}/run-coarse/scipy", features=dict(feats, solver="scipy", coarse=True), kind="dde_run", model=model,
                         solver="scipy", T=2.0, dts=1.0))
+    for vec in (False, True):
+        out.append(dict(tag="H13-per-node-delay-parameter", features=dict(param_delay=True, vec=vec), kind="param_delay", vec=vec))
     return out
+
+
+def param_delay_case(c):
+    """past(x, d) with d a PARAMETER that differs between two nodes of one type: each node reads hist(t - its own d)."""
+    import numpy as np
+    from pyrates import OperatorTemplate, NodeTemplate, CircuitTemplate
+    op = OperatorTemplate(name="dd", equations=["d/dt * x = -x + k*past(x, d)"], variables={"x": "output(0.6)", "k": 0.5, "d": 0.3}, path=None)
+    n1 = NodeTemplate(name="n1", operators=[op], path=None)
+    n2 = NodeTemplate(name="n2", operators={op: {"d": 0.7, "k": 1.5}}, path=None)
+    tpl = CircuitTemplate(name="net", nodes={"a": n1, "b": n2})
+    try:
+        f, a, names, m = tpl.get_run_func("vf", step_size=1e-2, vectorize=c["vec"], verbose=False, float_precision="float64", file_name="pd_mod",
+                                          solver="scipy")
+    except Exception as exn:
+        return dict(status="violated", fails=[dict(clause="get_run_func returns a function for a delayed model", observed=f"{type(exn).__name__}: {exn}")])
+    hi = list(names).index("hist")
+
+    def H(t):
+        return np.array([np.sin(3 * t), np.cos(2 * t)])
+    args = list(a)
+    args[hi] = H
+    fails = []
+    for t, y in ((1.0, np.array([0.2, -0.4])), (2.5, np.array([-0.7, 0.1]))):
+        got = np.array(f(t, y.copy(), *args[2:]), dtype=float).reshape(-1)
+        want = np.array([-y[0] + 0.5 * H(t - 0.3)[0], -y[1] + 1.5 * H(t - 0.7)[1]])
+        if got.shape != want.shape or not np.allclose(got, want, rtol=1e-9, atol=1e-12):
+            fails.append(dict(clause="delayed terms read component x of hist(t - tau) with tau the node's OWN delay parameter", t=t,
+                              observed=got.tolist(), expected=want.tolist()))
+            break
+    return dict(status="violated" if fails else "ok", fails=fails)
+
+
+def case_fn(c):
+    if c["kind"] == "param_delay":
+        return param_delay_case(c)
+    return cases.case_fn(c)
 
 
 def main():
@@ -43,14 +81,14 @@ def main():
                       fallback={"*": solver_fallback(chk)})
     _cases = families(chk.tier, chk.seed)
     _results = driver.run_family(
-        chk, "delayed-terms-vs-history", _cases, cases.case_fn, site="C10/dde",
+        chk, "delayed-terms-vs-history", _cases, case_fn, site="C10/dde",
         rule="models with past(x, tau): one delay on the first variable, on the second variable, two delays on two variables, one "
              "variable at two delays, a product with a delayed factor, a negative coefficient; delayed edges (two delays from one "
              "source; a delayed and an undelayed sibling; a sibling delay below the step size; vectorize off and on) under an adaptive solver; (1) the compiled function called with a hand-made smooth history H(t): derivative == "
              "spec with component x of H(t - tau), t in time units for adaptive AND fixed-step code (step counter * dt); (2) run "
              "(scipy; thorough: euler, heun) against an RK4 method-of-steps reference with constant pre-history; distinct = (model, kind, solver)",
         sample_of=lambda c: {k: v for k, v in c.items() if k != "features"})
-    driver.run_sequences(chk, "delayed-terms-vs-history-in-sequence", _cases, _results, cases.case_fn, site="C10/dde",
+    driver.run_sequences(chk, "delayed-terms-vs-history-in-sequence", _cases, _results, case_fn, site="C10/dde",
                          limit=20 if chk.tier == "quick" else 120, seed=chk.seed)
     rc = chk.finish(
         explanation="Deductive core: DDEHistory returns the initial state before the start and the linear interpolant of the recorded "
